@@ -26,7 +26,7 @@ ElemEv(lo) == [k |-> "elem", sp |-> <<>>, lo |-> lo]
 TextEv(v) == [k |-> "text", v |-> v]
 EndEv == [k |-> "end"]
 \* the text of a JSON number: the shortest numeral that reads back to the same double
-NumText(n) == IF n.c = "zero" /\ n.s = -1 THEN <<"-", "0">> ELSE NumToStr(n)
+NumText(n) == IF n.c = "zero" /\ n.s = -1 THEN <<"-", "0">> ELSE ShortestNumeral(n)
 ScalarText(v) == CASE v.t = "str" -> v.s [] v.t = "num" -> NumText(v.n) [] v.t = "bool" -> (IF v.b THEN TrueS ELSE FalseS) [] v.t = "null" -> NullS
 
 RECURSIVE JsonEvents(_)
